@@ -433,7 +433,10 @@ def describe(tier, agg):
         'rule': 'case = one history on one scene: blocks that push one seeded assignment A '
                 'through the three routes (per-call on default global; in-place global edit; '
                 'YAML via set_prms) and per-call under a global poisoned on exactly the leaves '
-                'of A, separated by full / partial resets, plus seeded extras (in-place nested '
+                'of A - and, in 60% of the blocks, under a global poisoned on EVERY leaf with '
+                'every leaf named per call; in 35% through an edited full copy of the packaged '
+                'file (copy_prm_file) - separated by full / partial resets, plus seeded extras '
+                '(in-place nested edits incl. adding / deleting keys, '
                 'edits, resets of seeded subsets, unrelated edits and runs, unknown keys at '
                 'depth 1-3); every history contains all routes, a poisoned global and a reset, '
                 'so every history is non-trivial; distinct = distinct (scene, op list)',
@@ -441,7 +444,10 @@ def describe(tier, agg):
             'reference model: plain dict; defaults = harness parse of the packaged YAML (ruamel '
             'safe loader cross-checked against PyYAML)',
             'outcome oracle: runs of one scene with typed-equal effective parameter values must '
-            'have identical digests (exception type included), whatever the route',
+            'have identical digests (exception type included), whatever the route; every third '
+            'run is additionally compared with the same scene evaluated, all effective values '
+            'passed explicitly, by a zygote process forked before anything ran (history-free; '
+            'skipped while the key sets of the global differ from the defaults)',
             'no fault is injected into the YAML read: the property makes no claim under read '
             'errors or malformed files',
             'height_scale_mode stays minmax-scale (the recursive update cannot replace its '
